@@ -977,7 +977,7 @@ def gen_L(thorough):
             if square and not thorough and rel not in REL_L_QUICK_SQUARE:
                 continue
             for sub in (SUB_L if thorough or not square else SUB_L[:1]):
-                for place in PLACE_L:
+                for place in (PLACE_L if thorough or not square else ("over-right", "over-top", "over-all-sides")):
                     for opt in OPTS_L:
                         yield (sshape, rel, sub, place, opt)
 
@@ -1118,14 +1118,18 @@ def gen_curv(thorough):
         for direction in ("proj->geo", "geo->proj"):
             for n in ((600, 1000) if thorough else (800,)):
                 for pad in ((None, 0, 1, 3) if thorough else (None,)):
-                    yield (name, direction, n, pad)
+                    for inner in ("same-window", "dst-inner"):
+                        yield (name, direction, n, pad, inner)
 
 
 def run_curv(case):
-    name, direction, n, pad = case
+    name, direction, n, pad, inner = case
     pe, win = CURV[name]
-    pshape, pA6 = window_raster(pe, win, (n, n))
-    gshape, gA6 = window_raster(4326, win, (n - 40, n + 60))
+    # "dst-inner": the destination covers the inner 70% of the window, so its (curved) edges lie well inside the source
+    wp = win if inner == "same-window" or direction == "proj->geo" else _sub_window(win, 0.15, 0.85, 0.15, 0.85)
+    wg = win if inner == "same-window" or direction == "geo->proj" else _sub_window(win, 0.15, 0.85, 0.15, 0.85)
+    pshape, pA6 = window_raster(pe, wp, (n, n))
+    gshape, gA6 = window_raster(4326, wg, (n - 40, n + 60))
     if direction == "proj->geo":
         (sshape, sA6, es), (dshape, dA6, ed) = (pshape, pA6, pe), (gshape, gA6, 4326)
     else:
@@ -1133,7 +1137,7 @@ def run_curv(case):
     src, dst = GeoBox(sshape, Affine(*sA6), f"EPSG:{es}"), GeoBox(dshape, Affine(*dA6), f"EPSG:{ed}")
     kw = {} if pad is None else {"padding": pad}
     info = OV.compute_reproject_roi(src, dst, **kw)
-    tag = f"curvature:{name}:{direction}:pad={pad}"
+    tag = f"curvature:{name}:{direction}:{inner}:pad={pad}"
     what = f"src=GeoBox({sshape}, Affine{sA6}, EPSG:{es}); dst=GeoBox({dshape}, Affine{dA6}, EPSG:{ed}); compute_reproject_roi(src, dst, {kw})"
     r = R()
     n_need, SX, SY = judge_cross(r, tag, what, info, sshape, sA6, dshape, dA6, es, ed, pad)
@@ -1144,8 +1148,8 @@ def run_curv(case):
     edge = (cx5 == 0) | (cx5 == nx) | (cy5 == 0) | (cy5 == ny)
     ex, ey = dst_to_src(sA6, dA6, es, ed, cx5[edge], cy5[edge])
     bulge = max(float(ex.min() - bx.min()), float(bx.max() - ex.max()), float(ey.min() - by.min()), float(by.max() - ey.max()))
-    r.outcome = f"curvature:{name}:{direction}:bulge-{'>3px' if bulge > 3 else '1-3px' if bulge > 1 else '<1px'}:{_cover(info, dshape, n_need)}"
-    r.counts = {f"obs:curvature:{name}:{direction}:n={n}:bulge-beyond-5pt-envelope-in-0.1px": int(round(bulge * 10))}
+    r.outcome = f"curvature:{name}:{direction}:{inner}:bulge-{'>3px' if bulge > 3 else '1-3px' if bulge > 1 else '<1px'}:{_cover(info, dshape, n_need)}"
+    r.counts = {f"obs:curvature:{name}:{direction}:{inner}:n={n}:pad={pad}:dst-boundary-beyond-5pt-envelope-in-0.1-src-px": int(round(bulge * 10))}
     r.nontrivial = n_need > 0
     return r
 
@@ -1154,6 +1158,7 @@ def run_curv(case):
 # space E: the same rasters given in other encodings (CRS spellings, numpy shapes, int / -0.0 affines)
 # =================================================================================================
 UTM33_PROJ4 = "+proj=utm +zone=33 +datum=WGS84 +units=m +no_defs"
+CUSTOM_TM17 = "+proj=tmerc +lat_0=0 +lon_0=17 +k=0.9996 +x_0=500000 +y_0=0 +datum=WGS84 +units=m +no_defs"
 
 
 @functools.lru_cache(maxsize=None)
@@ -1189,6 +1194,8 @@ def _crs_enc(name):
         return UTM33_PROJ4, 32633
     if name == "stale-id-wkt":
         return stale, stale  # a different CRS (central meridian 16.5) that still carries ID["EPSG",32633]
+    if name == "custom-tmerc17-no-code":
+        return CUSTOM_TM17, CUSTOM_TM17  # another CRS without an EPSG code (central meridian 17)
     if name in ("EPSG:4326", "OGC:CRS84"):
         return name, 4326  # same lon/lat mapping in x,y order
     return name, 32633
@@ -1204,6 +1211,10 @@ def gen_E():
                     yield ("utm", x, y, "plain", rel, pad, al)
             for a, b in (("EPSG:4326", "OGC:CRS84"), ("OGC:CRS84", "EPSG:4326"), ("OGC:CRS84", "OGC:CRS84")):
                 yield ("geo", a, b, "plain", rel, pad, al)
+            for a, b in (("stale-id-wkt", "custom-tmerc17-no-code"), ("custom-tmerc17-no-code", "stale-id-wkt"),
+                         ("custom-tmerc17-no-code", "custom-tmerc17-no-code"), ("EPSG:32633", "custom-tmerc17-no-code"),
+                         ("custom-tmerc17-no-code", "proj4-no-epsg"), ("stale-id-wkt", "stale-id-wkt")):
+                yield ("utm", a, b, "plain", rel, pad, al)
             for g in GRID_ENC[1:]:
                 yield ("utm", "EPSG:32633", "EPSG:32633", g, rel, pad, al)
                 yield ("utm", "EPSG:32633", "stale-id-wkt", g, rel, pad, al)
@@ -1259,7 +1270,7 @@ def run_E(case):
             c1 = ((px[2] - px[3]) / 2, (py[2] - py[3]) / 2)
             n0 = math.hypot(*c0)
             exp = (n0, abs(c0[0] * c1[1] - c0[1] * c1[0]) / n0)
-    cls = "stale-id" if "stale-id-wkt" in (ea, eb) and not same else ("same-crs-other-spelling" if ea != eb else "same-spelling")
+    cls = ("stale-id" if "stale-id-wkt" in (ea, eb) else "code-less") + "-vs-other-crs" if not same else ("same-crs-other-spelling" if ea != eb else "same-spelling")
     tag = f"encoding:{cls}:{ea}>{eb}:{g}:pad={pad}:align={al}"
     what = (f"src=GeoBox({s_shape!r}, {s_aff!r}, crs given as {ea}); dst=GeoBox({d_shape!r}, {d_aff!r}, crs given as {eb}); "
             f"compute_reproject_roi(src, dst, {kw}) [{rel}]")
@@ -1497,7 +1508,7 @@ def slices(tier):
                  "same CRS, shapes (16,2000), (2000,16), (2000,2000): rotation +-0.05/+-0.03/0.01 deg about a corner and about the "
                  "centre, shear 9e-4 in x / y, scale 1+-9e-4 and 2+-9e-4, x whole-pixel and +-4e-4 px shifts x 6 placements (same extent, "
                  "50 px overhang on each side / all sides) x {default, padding=0 align=0}; vectorised brute force over all pixels "
-                 "(quick: 4 relations and whole-pixel shifts only for the 2000x2000 shape)"),
+                 "(quick: 4 relations, whole-pixel shifts and 3 placements only for the 2000x2000 shape)"),
         e1.Slice("H-history", lambda: gen_H(3 if th else 2), run_H,
                  "8 target pairs x every sequence of <= 2 (thorough 3) of 20 interfering public calls (get_scale_at_point with r in "
                  "{None,0,0.5,16,1e3} on the same/another transform, plans of other pairs, native_pix_transform, out-of-range "
